@@ -7,7 +7,7 @@ import random
 from pyvc import term as tm
 from pyvc.term import INT, BOOL, STR
 from pyvc.solve import Obligation
-from bounded import gen, entities as be
+from bounded import gen, entities as be, assembly as ba
 
 ID = "C04"
 LEVEL = "proof"
@@ -206,9 +206,15 @@ def bounded(ctx):
                 seen_geo.add(g)
                 keep.append((name, e, m, v))
         gens = keep
+    # cutters whose recognition site holds an ambiguity code (no N: CCDG, CCDS): accepted as cutters like any other
+    amb = be.generic_classes(ns["moclo.core"], [x_ for x_ in gen.ambiguous_site_enzymes() if "N" not in x_[2]])
+    amb_labels = {"generic-%s[%s]" % (r_, x_[0]) for x_ in amb for r_ in ("module", "vector")}
+    gens += amb
+    generic_labels = set()
     for (name, e, m, v) in gens:
         cases.append(("generic-module[%s]" % name, m))
         cases.append(("generic-vector[%s]" % name, v))
+        generic_labels |= {"generic-module[%s]" % name, "generic-vector[%s]" % name}
     viol, samples = [], []
     evals = 0
     distinct = set()
@@ -232,9 +238,31 @@ def bounded(ctx):
             extra.append(s[:mid] + ins1.lower() + s[mid:])
             extra.append(s[:mid] + ins2.lower() + s[mid:])
             extra.append(s.lower())
-        for s in records + extra:
+        # every single-letter change of the two recognition sites (generic classes): the class refuses most of them; a
+        # site with an ambiguity code tolerates some, and then the fragments must still be the enzyme's
+        nearmiss = set()
+        if label in generic_labels:
+            s_ = records[0]
+            for word in (site, gen.rc(site)):
+                for p_ in be.occurrences(s_, word):
+                    for j_ in range(len(word)):
+                        q_ = (p_ + j_) % len(s_)
+                        for ch_ in "ACGT":
+                            if ch_ != s_[q_].upper():
+                                nearmiss.add(s_[:q_] + ch_ + s_[q_ + 1:])
+        nearmiss = sorted(nearmiss)
+        pool = records + extra + nearmiss
+        if label in amb_labels:
+            # beyond the enzyme family of the statement (C01's enumeration: unambiguous sites).  Kept to the records on which
+            # Bio.Restriction's own search is unambiguous: at most one forward and one reverse occurrence (an occurrence
+            # that is its own reverse complement, CCGG for CCDG / CCDS, is reported by Bio on one strand only)
+            pool = [s_ for s_ in records + nearmiss if ba.count_sites(s_, cls.cutter)[0] <= 1 and ba.count_sites(s_, cls.cutter)[1] <= 1
+                    and not set(be.occurrences(s_, site)) & set(be.occurrences(s_, gen.rc(site)))]
+        for s in pool:
             n = len(s)
             rots = range(n) if (ctx.tier != "quick" or n <= 40) else sorted(set(list(range(0, n, 3)) + list(range(min(n, 14))) + list(range(max(0, n - 14), n))))
+            if s in nearmiss and ctx.tier == "quick":
+                rots = [0, n // 3, n - 2]
             for r in rots:
                 t = s[r:] + s[:r]
                 evals += 1
